@@ -196,6 +196,8 @@ def vcf_header_lines(world):
     if "##FILTER=<ID=PASS" not in have:
         lines.append('##FILTER=<ID=PASS,Description="All filters passed">')
     for ch in world["chroms"]:
+        if world.get("no_contig_lines"):
+            break  # legal in VCF 4.2: contig lines are recommended, not required
         if ("##contig=<ID=%s," % ch["name"]) not in have and ("##contig=<ID=%s>" % ch["name"]) not in have:
             lines.append("##contig=<ID=%s,length=%d>" % (ch["name"], len(ch["seq"])))
     fmt = set()
